@@ -411,3 +411,349 @@ pub fn required_distance() -> i32 {
     // 8192 packets with a link MTU of 176 bytes. Checked up to 8192.
     8192
 }
+
+// ---------------------------------------------------------------------------------------------
+// C11: wire format - differential against the independent codec, round trips, totality
+// ---------------------------------------------------------------------------------------------
+
+use librqbit_utp::raw::{selective_ack::SelectiveAck, ext_close_reason::LibTorrentCloseReason, Extensions, Type, UtpHeader};
+use librqbit_utp::verif::UtpMessage;
+
+fn type_num(t: Type) -> u8 {
+    t as u8
+}
+
+fn type_from(n: u8) -> Type {
+    match n {
+        0 => Type::ST_DATA,
+        1 => Type::ST_FIN,
+        2 => Type::ST_STATE,
+        3 => Type::ST_RESET,
+        _ => Type::ST_SYN,
+    }
+}
+
+/// What the library's header must look like for a byte string, according to the independent
+/// parser and the documented normalisations (SACK stored as 64 bits: first min(len, 8) bytes,
+/// zero padded, the last SACK extension wins; close reason = extension 3 with length 4).
+struct Expect {
+    ty: u8,
+    conn_id: u16,
+    ts: u32,
+    ts_diff: u32,
+    wnd: u32,
+    seq: u16,
+    ack: u16,
+    sack: Option<([u8; 8], usize)>,
+    close_reason: Option<u16>,
+    hlen: usize,
+}
+
+fn expect_of(buf: &[u8]) -> Option<Expect> {
+    let (p, hlen) = crate::wire::parse_header(buf).ok()?;
+    let sack = p.exts.iter().rev().find(|e| e.0 == crate::wire::EXT_SACK).map(|e| {
+        let mut b = [0u8; 8];
+        let n = e.1.len().min(8);
+        b[..n].copy_from_slice(&e.1[..n]);
+        (b, e.1.len() * 8)
+    });
+    let close_reason = p
+        .exts
+        .iter()
+        .rev()
+        .find(|e| e.0 == crate::wire::EXT_CLOSE_REASON && e.1.len() == 4)
+        .map(|e| u32::from_be_bytes([e.1[0], e.1[1], e.1[2], e.1[3]]) as u16);
+    Some(Expect {
+        ty: p.ty,
+        conn_id: p.conn_id,
+        ts: p.ts,
+        ts_diff: p.ts_diff,
+        wnd: p.wnd,
+        seq: p.seq,
+        ack: p.ack,
+        sack,
+        close_reason,
+        hlen,
+    })
+}
+
+fn hex(b: &[u8]) -> String {
+    let mut s = String::new();
+    for x in b.iter().take(80) {
+        s.push_str(&format!("{:02x}", x));
+    }
+    if b.len() > 80 {
+        s.push_str("..");
+    }
+    s
+}
+
+fn diff_one(rep: &mut CaseReport, buf: &[u8]) {
+    const P: &str = "C11";
+    rep.counters.inc("c11_strings_parsed");
+    let got = std::panic::catch_unwind(|| UtpHeader::deserialize(buf));
+    let got = match got {
+        Ok(g) => g,
+        Err(_) => {
+            rep.violate(P, "parser-panicked", "header".to_string(), format!("UtpHeader::deserialize panicked on {}", hex(buf)), None);
+            return;
+        }
+    };
+    let want = expect_of(buf);
+    match (&got, &want) {
+        (None, None) => {
+            rep.counters.inc("c11_rejected_by_both");
+        }
+        (Some(_), None) => {
+            let why = crate::wire::parse_header(buf).err();
+            rep.violate(P, "accepts-invalid", format!("header {:?}", why.unwrap()), format!("the library accepts {} which the BEP-29 parser rejects ({:?})", hex(buf), why), None);
+        }
+        (None, Some(_)) => {
+            rep.violate(P, "rejects-valid", "header".to_string(), format!("the library rejects {} which the BEP-29 parser accepts", hex(buf)), None);
+        }
+        (Some((h, len)), Some(w)) => {
+            rep.counters.inc("c11_accepted_by_both");
+            let sack_got = h.extensions.selective_ack.map(|s| {
+                let mut b = [0u8; 8];
+                b.copy_from_slice(s.as_bytes());
+                (b, s.len())
+            });
+            let same = type_num(h.htype) == w.ty
+                && h.connection_id.0 == w.conn_id
+                && h.timestamp_microseconds == w.ts
+                && h.timestamp_difference_microseconds == w.ts_diff
+                && h.wnd_size == w.wnd
+                && h.seq_nr.0 == w.seq
+                && h.ack_nr.0 == w.ack
+                && sack_got == w.sack
+                && h.extensions.close_reason.map(|c| c.0) == w.close_reason;
+            if !same {
+                rep.violate(P, "fields-differ", "header".to_string(), format!("fields parsed from {} differ from the BEP-29 parser: library {:?}", hex(buf), h), None);
+            }
+            if *len != w.hlen {
+                rep.violate(P, "payload-boundary-differs", "header".to_string(), format!("header length of {}: library {}, BEP-29 parser {}", hex(buf), len, w.hlen), None);
+            }
+            // parse -> serialize -> parse: equal except for the documented SACK normalisation
+            let mut out = vec![0u8; 20 + 2 + 8 + 2 + 4];
+            match h.serialize(&mut out) {
+                Ok(n) => {
+                    rep.counters.inc("c11_reserialized");
+                    match UtpHeader::deserialize(&out[..n]) {
+                        Some((h2, n2)) => {
+                            let mut hn = *h;
+                            // the serializer always writes the 64-bit mask
+                            if let Some(s) = hn.extensions.selective_ack {
+                                hn.extensions.selective_ack = Some(SelectiveAck::deserialize(s.as_bytes()));
+                            }
+                            if h2 != hn || n2 != n {
+                                rep.violate(P, "reserialize-roundtrip", "header".to_string(), format!("{} parsed, serialised and parsed again gives {:?} (len {n2}) instead of {:?} (len {n})", hex(buf), h2, hn), None);
+                            }
+                            // and the independent parser must agree with what was written
+                            if let Some(w2) = expect_of(&out[..n]) {
+                                if w2.hlen != n || w2.ty != type_num(h.htype) || w2.seq != h.seq_nr.0 {
+                                    rep.violate(P, "serializer-output-misparsed", "header".to_string(), format!("the BEP-29 parser reads the serialised form of {:?} differently", h), None);
+                                }
+                            } else {
+                                rep.violate(P, "serializer-output-invalid", "header".to_string(), format!("the BEP-29 parser rejects the serialised form of {:?}: {}", h, hex(&out[..n])), None);
+                            }
+                        }
+                        None => rep.violate(P, "reserialize-roundtrip", "header".to_string(), format!("the serialised form of {:?} is rejected by the library's own parser", h), None),
+                    }
+                }
+                Err(e) => rep.violate(P, "serialize-failed", "header".to_string(), format!("serialising {:?} failed: {e}", h), None),
+            }
+        }
+    }
+    // message level: payload present exactly for data packets
+    let gm = std::panic::catch_unwind(|| UtpMessage::deserialize(buf));
+    match gm {
+        Err(_) => rep.violate(P, "parser-panicked", "message".to_string(), format!("UtpMessage::deserialize panicked on {}", hex(buf)), None),
+        Ok(gm) => {
+            let wm = crate::wire::parse(buf);
+            match (gm, wm) {
+                (None, None) => {}
+                (Some(m), Some(w)) => {
+                    rep.counters.inc("c11_messages_accepted_by_both");
+                    if m.payload() != w.payload.as_slice() {
+                        rep.violate(P, "payload-boundary-differs", "message".to_string(), format!("payload of {}: library {} bytes, BEP-29 parser {} bytes", hex(buf), m.payload().len(), w.payload.len()), None);
+                    }
+                }
+                (Some(m), None) => rep.violate(P, "accepts-invalid", "message payload-rule".to_string(), format!("the library accepts message {} (type {:?}, payload {} bytes) which violates the payload rules", hex(buf), m.header.htype, m.payload().len()), None),
+                (None, Some(w)) => rep.violate(P, "rejects-valid", "message".to_string(), format!("the library rejects message {} ({}) which the BEP-29 parser accepts", hex(buf), w.short()), None),
+            }
+        }
+    }
+}
+
+fn base_header(rng: &mut Prng, typever: u8) -> Vec<u8> {
+    let mut b = vec![0u8; 20];
+    b[0] = typever;
+    for x in b[2..20].iter_mut() {
+        *x = rng.next_u64() as u8;
+    }
+    b
+}
+
+const EXT_IDS: [u8; 4] = [1, 2, 3, 255];
+const EXT_LENS: [u8; 8] = [0, 1, 3, 4, 5, 8, 9, 255];
+
+fn build_with_chain(rng: &mut Prng, typever: u8, chain: &[(u8, u8)], payload: usize) -> Vec<u8> {
+    let mut b = base_header(rng, typever);
+    b[1] = chain.first().map(|c| c.0).unwrap_or(0);
+    for (i, (_, len)) in chain.iter().enumerate() {
+        b.push(chain.get(i + 1).map(|c| c.0).unwrap_or(0));
+        b.push(*len);
+        for _ in 0..*len {
+            b.push(rng.next_u64() as u8);
+        }
+    }
+    for _ in 0..payload {
+        b.push(rng.next_u64() as u8);
+    }
+    b
+}
+
+/// One case = one (type nibble, version nibble) pair: all extension chains up to depth 2 over
+/// the id / length grids (depth 3 and 4 sampled), three payload sizes, every truncation point.
+pub fn direct_wire_grid(ctx: &CaseCtx) -> CaseReport {
+    let mut rep = CaseReport::new(ctx.family, ctx.index, ctx.case_seed);
+    let mut rng = Prng::new(ctx.case_seed);
+    let typever = (ctx.index % 256) as u8;
+    let mut chains: Vec<Vec<(u8, u8)>> = vec![vec![]];
+    for &i1 in &EXT_IDS {
+        for &l1 in &EXT_LENS {
+            chains.push(vec![(i1, l1)]);
+            for &i2 in &EXT_IDS {
+                for &l2 in &EXT_LENS {
+                    chains.push(vec![(i1, l1), (i2, l2)]);
+                }
+            }
+        }
+    }
+    let deep = if ctx.tier == Tier::Quick { 200 } else { 4000 };
+    for _ in 0..deep {
+        let d = rng.range(3, 4) as usize;
+        chains.push((0..d).map(|_| (*rng.pick(&EXT_IDS), *rng.pick(&EXT_LENS))).collect());
+    }
+    for chain in &chains {
+        for payload in [0usize, 1, 5] {
+            let full = build_with_chain(&mut rng, typever, chain, payload);
+            // every truncation point around the structure, all of them for short strings
+            let n = full.len();
+            if n <= 64 {
+                for cut in 0..=n {
+                    diff_one(&mut rep, &full[..cut]);
+                }
+            } else {
+                diff_one(&mut rep, &full);
+                for _ in 0..12 {
+                    let cut = rng.below(n as u64 + 1) as usize;
+                    diff_one(&mut rep, &full[..cut]);
+                }
+                for cut in [19usize, 20, 21, 22, 23] {
+                    diff_one(&mut rep, &full[..cut.min(n)]);
+                }
+            }
+        }
+        if rep.violations.len() > 8 {
+            break;
+        }
+    }
+    rep.desc = format!("type nibble {} version nibble {}: {} extension chains x 3 payload sizes x truncation points", typever >> 4, typever & 15, chains.len());
+    rep.trace_hash = crate::prng::mix2(typever as u64, 0xC11);
+    rep.nontrivial = true;
+    rep
+}
+
+/// Random byte strings, random mutations of valid packets, and header round trips.
+pub fn direct_wire_random(ctx: &CaseCtx) -> CaseReport {
+    const P: &str = "C11";
+    let mut rep = CaseReport::new(ctx.family, ctx.index, ctx.case_seed);
+    let mut rng = Prng::new(ctx.case_seed);
+    let n = if ctx.tier == Tier::Quick { 3000 } else { 30000 };
+    let mut h = FNV_INIT;
+    for _ in 0..n {
+        match rng.below(4) {
+            0 => {
+                let len = rng.below(70) as usize;
+                let mut b = rng.bytes(len);
+                if !b.is_empty() && rng.chance(0.7) {
+                    b[0] = ((rng.below(6) as u8) << 4) | 1;
+                }
+                fnv1a(&mut h, &b);
+                diff_one(&mut rep, &b);
+            }
+            1 => {
+                // a valid packet with random single-byte mutations
+                let ty = rng.below(5) as u8;
+                let chain: Vec<(u8, u8)> = (0..rng.below(3)).map(|_| (*rng.pick(&[1u8, 3, 2]), *rng.pick(&[1u8, 4, 8, 32]))).collect();
+                let plen = if ty == 0 { rng.range(1, 40) as usize } else { 0 };
+                let mut b = build_with_chain(&mut rng, (ty << 4) | 1, &chain, plen);
+                for _ in 0..rng.below(3) {
+                    let i = rng.below(b.len() as u64) as usize;
+                    b[i] = rng.next_u64() as u8;
+                }
+                fnv1a(&mut h, &b);
+                diff_one(&mut rep, &b);
+            }
+            _ => {
+                // header value -> serialize -> parse round trip (image of the serializer:
+                // SACK absent or 8 bytes, close reason absent or present)
+                let mut hd = UtpHeader::default();
+                hd.htype = type_from(rng.below(5) as u8);
+                hd.connection_id = SeqNr(rng.next_u64() as u16);
+                hd.timestamp_microseconds = rng.next_u64() as u32;
+                hd.timestamp_difference_microseconds = rng.next_u64() as u32;
+                hd.wnd_size = *rng.pick(&[0u32, 1, u32::MAX, 0x8000_0000]) ^ if rng.chance(0.5) { rng.next_u64() as u32 } else { 0 };
+                hd.seq_nr = SeqNr(rng.next_u64() as u16);
+                hd.ack_nr = SeqNr(rng.next_u64() as u16);
+                hd.extensions = Extensions {
+                    selective_ack: if rng.chance(0.5) { Some(SelectiveAck::deserialize(&rng.bytes(8))) } else { None },
+                    close_reason: if rng.chance(0.3) { Some(LibTorrentCloseReason(rng.next_u64() as u16)) } else { None },
+                };
+                let mut out = vec![0u8; 64];
+                rep.counters.inc("c11_header_roundtrips");
+                match hd.serialize(&mut out) {
+                    Ok(len) => {
+                        fnv1a(&mut h, &out[..len]);
+                        match UtpHeader::deserialize(&out[..len]) {
+                            Some((h2, l2)) => {
+                                if h2 != hd || l2 != len {
+                                    rep.violate(P, "roundtrip", "header".to_string(), format!("{:?} serialises to {} which parses back to {:?} (len {l2} vs {len})", hd, hex(&out[..len]), h2), None);
+                                }
+                            }
+                            None => rep.violate(P, "roundtrip", "header".to_string(), format!("{:?} serialises to {} which the library's parser rejects", hd, hex(&out[..len])), None),
+                        }
+                        // the independent parser reads the same fields
+                        match crate::wire::parse_header(&out[..len]) {
+                            Ok((p, hl)) => {
+                                if hl != len || p.ver != 1 || p.ty != type_num(hd.htype) || p.conn_id != hd.connection_id.0 || p.seq != hd.seq_nr.0 || p.ack != hd.ack_nr.0 || p.wnd != hd.wnd_size || p.ts != hd.timestamp_microseconds || p.ts_diff != hd.timestamp_difference_microseconds {
+                                    rep.violate(P, "serializer-output-misparsed", "header".to_string(), format!("the BEP-29 parser reads {} (serialised {:?}) as {}", hex(&out[..len]), hd, p.short()), None);
+                                }
+                                let sack_ok = match (hd.extensions.selective_ack, p.sack()) {
+                                    (None, None) => true,
+                                    (Some(s), Some(b)) => s.as_bytes() == b,
+                                    _ => false,
+                                };
+                                if !sack_ok {
+                                    rep.violate(P, "serializer-output-misparsed", "sack".to_string(), format!("selective ACK of {:?} is not what the BEP-29 parser reads from {}", hd, hex(&out[..len])), None);
+                                }
+                            }
+                            Err(e) => rep.violate(P, "serializer-output-invalid", "header".to_string(), format!("the BEP-29 parser rejects {} (serialised {:?}): {e:?}", hex(&out[..len]), hd), None),
+                        }
+                        // also through the differential path
+                        diff_one(&mut rep, &out[..len]);
+                    }
+                    Err(e) => rep.violate(P, "serialize-failed", "header".to_string(), format!("serialising {:?} failed: {e}", hd), None),
+                }
+            }
+        }
+        if rep.violations.len() > 8 {
+            break;
+        }
+    }
+    rep.desc = format!("{n} random strings / mutated packets / header round trips");
+    rep.trace_hash = h;
+    rep.nontrivial = true;
+    rep
+}
